@@ -12,6 +12,7 @@ mod c14;
 mod c15;
 mod c16;
 mod c17;
+mod c18;
 mod c20;
 mod common;
 mod refmodel;
@@ -115,6 +116,7 @@ fn main() {
         "C14" => c14::run(&ctx),
         "C15" => c15::run(&ctx),
         "C16" => c16::run(&ctx),
+        "C18" => c18::run(&ctx),
         _ => usage(),
     };
     let code = finish(&ctx, &rep, t0.elapsed().as_secs_f64());
